@@ -213,6 +213,11 @@ def marginals(ctx: Ctx):
         want = f"self._dimensions[{own}].dimension_type not in DT.ARRAY_TYPES"
         ctx.check_expr("definedness", f"{MM}::{cname}.is_defined", e, want,
             "counts are comparable along a direction iff the dimension summed over is not an array")
+        # the same clause as a decision table over every dimension type (independent of the spelling)
+        from ..typetab import SPEC_ARRAY_TYPES, check_type_predicate
+
+        check_type_predicate(ctx, "definedness.table", f"{MM}::{cname}.is_defined", ci.module, e, f"self._dimensions[{own}].dimension_type",
+                             lambda mem: mem not in SPEC_ARRAY_TYPES, "a 1-D margin over the items of ANY array dimension (CA sub-variables, MR, numeric array) is undefined: each item has its own base")
     ci = ctx.repo.cls(MM, "_BaseMarginal")
     e = expand(ctx.repo, ci, "_counts_are_defined")
     want = f"{SOM}.column_comparable_counts.is_defined if self._orientation == MO.ROWS else {SOM}.row_comparable_counts.is_defined"
